@@ -60,18 +60,18 @@ pub fn run(ctx: &Ctx) -> Report {
 
     let (rule, assumptions): (&'static str, Vec<String>) = match prop {
         "C01" => (
-            "proptest histories (Add/AddFill/Fetch/Complete/Pop/...) over queue sizes 2^0..2^15 x indirect x event-idx x access-platform x legacy/modern, plus explicit >65536-submission runs; after every accepted submission the reference device walks the chain from the new ring slot and compares it with the ledger of share() results and the caller's buffers. Non-trivial = a submission made while >=1 other chain is outstanding and after >=1 completion was consumed (free list permuted); distinct = (size, flags, buffer counts, descriptor ids of the chain).",
+            "proptest histories (Add/AddFill/Fetch/Complete/Pop/...) over queue sizes 2^0..2^15 x indirect x event-idx x access-platform x legacy/modern, plus explicit >65536-submission runs; after every accepted submission the reference device walks the chain from the new ring slot and compares it with the ledger of share() results and the caller's buffers. One case = one history. Non-trivial = a history with >=1 submission made while >=1 other chain is outstanding and after >=1 completion was consumed (free list permuted; their number is the class nontrivial_submissions); distinct = hash over (size, flags, buffer counts, descriptor ids of the chain) of all such submissions of the history. Whether a multi-buffer submission on an indirect-enabled queue uses an indirect table is read off the published chain, not prescribed.",
             vec!["the bounce Hal returns device addresses that never equal virtual addresses".into()],
         ),
         "C02" => (
-            "same histories with the device looking at queue memory at every store hook (after each descriptor write, ring-slot write, index write, flags write, used_event write): index moves by 0/+1; the entry it newly covers validates completely at that instant; every outstanding chain is unchanged; when the index changes nothing else changed in the same interval (full snapshot compare for N<=256). Non-trivial = submission of >=3 descriptors or an indirect table observed at >=3 store points while another chain is outstanding; distinct = (size, flags, chain length, points, outstanding count, descriptor ids).",
+            "same histories with the device looking at queue memory at every store hook (after each descriptor write, ring-slot write, index write, flags write, used_event write): index moves by 0/+1; the entry it newly covers validates completely at that instant; every outstanding chain is unchanged; when the index changes nothing else changed in the same interval (full snapshot compare for N<=256). One case = one history. Non-trivial = a history with >=1 submission of >=3 descriptors or an indirect table observed at >=3 store points while another chain is outstanding (class nontrivial_submissions counts them); distinct = hash over (size, flags, chain length, points, outstanding count, descriptor ids) of all such submissions.",
             vec![
                 "decides program order of the driver's device-visible stores; hardware/compiler memory ordering (fence strength) is not observable by execution on x86-64 and is not claimed".into(),
                 "store hooks (cargo feature verif-hooks) are placed after each store; oracle clause 3 does not rely on their placement".into(),
             ],
         ),
         "C03" => (
-            "same histories compared in lock-step with a reference ring model (return value of every add/pop_used/peek_used/can_pop/available_desc, side-effect freedom of refused operations, behavioural free-descriptor count at the end). Non-trivial = history with >=2 chains outstanding completed out of submission order plus a wrong-token or not-ready poll, or a run crossing the 16-bit index wrap; distinct = (config, hash of op kinds and outcomes).",
+            "same histories compared in lock-step with a reference ring model (return value of every add/pop_used/peek_used/can_pop/available_desc, side-effect freedom of refused operations, behavioural free-descriptor count at the end). Non-trivial = history with >=2 chains outstanding completed out of submission order plus a wrong-token or not-ready poll, or a run crossing the 16-bit index wrap (the >65536-submission runs keep up to two chains in flight across rounds and poll between completions); distinct = (config, hash of op kinds and outcomes).",
             vec!["available_desc() in indirect mode is compared with the crate's documented N-or-0 behaviour; the true free count is measured behaviourally".into()],
         ),
         "C04" => (
